@@ -37,6 +37,7 @@ class Port:
         self.deliver = None      # callable(Frame)
         self.last_delivery = 0   # FIFO floor (ns)
         self.rx_count = 0
+        self.rx_log = []         # (t_ns, Frame) actually delivered to this port
 
     def send(self, can_id, extended_id, data, fd_format=False):
         self.bus.send(self.name, can_id, extended_id, bytes(bytearray(data)), fd_format)
@@ -162,5 +163,6 @@ class SimBus:
             return
         self.deliveries += 1
         p.rx_count += 1
+        p.rx_log.append((self.sim.now, fr))
         self.sim.log('rx', p.name, fr.seq)
         p.deliver(fr)
